@@ -115,6 +115,7 @@ type c16Run struct {
 	queuedOf [][][2]uint32
 	lastPost []bool
 	owner    map[uint32]int // id -> actor that was last added successfully under it
+	pendingBox map[uint32]bool // the mailbox last installed under the id is the placeholder's (never answers)
 	subs     []*c16Sub
 	nextMsg  uint32
 	nextUID  uint32
@@ -140,7 +141,7 @@ func c16NewRun(res *hx.Result, rng *hx.Rng) (*c16Run, error) {
 	if err != nil {
 		return nil, err
 	}
-	r := &c16Run{env: env, res: res, rng: rng, owner: map[uint32]int{}, nextMsg: 1, nextUID: 1000,
+	r := &c16Run{env: env, res: res, rng: rng, owner: map[uint32]int{}, pendingBox: map[uint32]bool{}, nextMsg: 1, nextUID: 1000,
 		nextSeed: int64(rng.Intn(1 << 30)), allow1: rng.Chance(0.3)}
 	for k := 0; k < c16Actors; k++ {
 		a := &c16Actor{k: k}
@@ -328,6 +329,7 @@ func (r *c16Run) opAddBegin(k int, seed int64) {
 	case id := <-a.entered:
 		idx = &id
 		r.phase[k], r.id[k] = phAdding, id
+		r.pendingBox[id] = true
 	case <-time.After(5 * time.Second):
 		r.fail("add-stuck", "Service.Add did not reach Activate within 5 s: "+r.trace(), "")
 		r.dead = true
@@ -407,6 +409,7 @@ func (r *c16Run) opAddEnd(k int, ok bool) {
 			}
 			r.phase[k] = phLive
 			r.owner[r.id[k]] = k
+			r.pendingBox[r.id[k]] = false
 		} else {
 			r.phase[k] = phFailed
 			r.failedIDs = append(r.failedIDs, r.id[k])
@@ -556,13 +559,8 @@ func (r *c16Run) opSend(f c16Frame) {
 	f.id = r.nextMsg
 	r.nextMsg++
 	owner, hasOwner := r.owner[f.obj]
-	held := hasOwner && r.gated[owner]
-	noAnswer := false
-	for k := range r.actors {
-		if (r.phase[k] == phAdding || r.phase[k] == phFailed) && r.id[k] == f.obj {
-			noAnswer = true
-		}
-	}
+	noAnswer := r.pendingBox[f.obj]
+	held := hasOwner && r.gated[owner] && !noAnswer
 	removedBefore := false
 	for _, id := range r.removedIDs {
 		if id == f.obj && r.liveAt(id, -1) < 0 && !noAnswer {
